@@ -17,7 +17,7 @@ ID = "C10"
 LEVEL = "model_checking"
 MIN_OUTCOMES = 5
 MANIFEST = {
-    'text': "Complete enumeration of the VCS configuration lattice (thorough: full product incl. all 27 CLI tri-state combinations; quick: one tri-state at a time + a slice of pairs) with hooks {absent, ok, fails, killed by a signal} given by config or on the command line, with and without foreign BUMPVER_OLD/NEW_VERSION values already in bumpver's own environment, `.git` as a directory or as a file (linked work tree), on the real `update` with a fake git/hg at the subprocess seam, plus single-fault injection at every effect position (each once with a neutral error text and once with the text the real tool prints for the usual cause - tag already exists, nothing to commit, failed to push, not a repository): the ordered effect trace of each run must be exactly the prefix the property prescribes for the effective settings. The full-configuration points also run as `python -m bumpver` child processes under an ASCII locale (git's answers contain a non-ASCII branch name) with fake executables on PATH and must issue the same commands. A seam-conformance pass re-runs ~1,000 configurations with fake executables first on PATH and requires identical command traces (otherwise HARNESS-ERROR, never a violation).",
+    'text': "Complete enumeration of the VCS configuration lattice (thorough: full product incl. all 27 CLI tri-state combinations; quick: one tri-state at a time + a slice of pairs) with hooks {absent, ok, fails, killed by a signal} given by config or on the command line, with and without foreign BUMPVER_OLD/NEW_VERSION values already in bumpver's own environment, `.git` as a directory or as a file (linked work tree), on the real `update` with a fake git/hg at the subprocess seam, plus single-fault injection at every effect position (each once with a neutral error text and once with the text the real tool prints for the usual cause - tag already exists, nothing to commit, failed to push, not a repository): the ordered effect trace of each run must be exactly the prefix the property prescribes for the effective settings. The full-configuration points also run as `python -m bumpver` child processes under an ASCII locale (git's answers contain a non-ASCII branch name) with fake executables on PATH and must issue the same commands. A variant with a glob that expands to 14 files of one directory (next to files there that are not configured) adds the oracle that the paths named by the staging commands are exactly the configured files. A seam-conformance pass re-runs ~1,000 configurations with fake executables first on PATH and requires identical command traces (otherwise HARNESS-ERROR, never a violation).",
     'note': 'double faults, real hg and non-executable hook scripts are outside the bound; the git command set is executed for real by C08/C11/C12',
     'technique': 'explicit-state exploration of the configuration lattice + single-fault enumeration on the implementation, trace monitors',
 }
@@ -69,7 +69,7 @@ def lattice(tier, seed):
     # variants that take other paths to the tag list: --ignore-vcs-tag + --set-version, tag_scope = branch
     for kind in kinds:
         for cfg, cli0, remote, dry, fetch, variant in itertools.product(
-            cfgs, (None, True, False), ("upstream", None), (False, True), (True, False), ("ignore+set-version", "scope-branch", "ignore", "hooks-via-cli", "hooks-via-cli-failing", "gitfile")
+            cfgs, (None, True, False), ("upstream", None), (False, True), (True, False), ("ignore+set-version", "scope-branch", "ignore", "hooks-via-cli", "hooks-via-cli-failing", "gitfile", "many-in-dir")
         ):
             if variant == "gitfile" and kind != "git":
                 continue
@@ -132,10 +132,26 @@ def build(p):
         lines.append('post_commit_hook = "post.sh"')
     if p["variant"] == "scope-branch":
         lines.append('tag_scope = "branch"')
-    lines += ["", "[bumpver.file_patterns]", '"bumpver.toml" = [\'current_version = "{version}"\']', '"a.txt" = ["ver={version};"]', ""]
+    lines += ["", "[bumpver.file_patterns]", '"bumpver.toml" = [\'current_version = "{version}"\']', '"a.txt" = ["ver={version};"]']
+    many = {}
+    if p["variant"] == "many-in-dir":
+        # a glob that expands to many files of ONE directory, next to files of that directory that are not configured
+        lines.append('"docs/page_*.md" = ["ver={version};"]')
+        many = {f"docs/page_{i:02d}.md": b"ver=1.2.3;\n" for i in range(MANY)}
+        many["docs/notes.txt"] = b"ver=1.2.3;\n"
+        many["docs/sub/page_00.md"] = b"ver=1.2.3;\n"
+    lines.append("")
     files = {"bumpver.toml": "\n".join(lines).encode(), "a.txt": b"ver=1.2.3;\n", "pre.sh": b"#!/bin/sh\n", "post.sh": b"#!/bin/sh\n",
              "other.txt": b"x\n"}
+    files.update(many)
     return files
+
+
+MANY = 14
+
+
+def configured_paths(p):
+    return sorted(["bumpver.toml", "a.txt"] + ([f"docs/page_{i:02d}.md" for i in range(MANY)] if p["variant"] == "many-in-dir" else []))
 
 
 def args_of(p):
@@ -306,6 +322,13 @@ def judge(st, p, o, fake, files, after, fail=None):
             bad(f"files-rewritten-although-{'dry' if p['dry'] else outcome}:{ctx}")
         if should_rewrite and outcome == "ok" and not rewritten:
             bad(f"files-not-rewritten:{ctx}")
+        # "stage configured files": whatever way the staging commands are grouped, the paths they name are the configured files
+        staged = sorted(os.path.normpath(a) for e in fake.effects() if e["type"] == "cmd" and e["name"] == "add"
+                        for a in e["argv"][2:] if not a.startswith("-"))
+        if "add" in got and staged != configured_paths(p):
+            want = configured_paths(p)
+            bad(f"staged-paths-are-not-the-configured-files:{p['variant']}:{ctx}",
+                not_configured=sorted(set(staged) - set(want))[:5], not_staged=sorted(set(want) - set(staged))[:5])
         # the rewrite happens before the first hook / add
         for e in fake.effects():
             if e["type"] == "hook" or e.get("name") in ("add", "commit"):
